@@ -475,9 +475,13 @@ impl SyncController {
     ///
     /// This must be called after [`Self::begin_sync`].
     pub fn wait_pre_meta(&mut self) -> std::io::Result<SyncData> {
+        // the fsyncs are initiated at the very end of the task, only if it succeeds.
         join_task(&self.begin_sync_result_rx)?;
-        self.inner.sync.bbn_fsync.wait()?;
-        self.inner.sync.ln_fsync.wait()?;
+        // both are awaited before an error of either is propagated.
+        let bbn_fsync = self.inner.sync.bbn_fsync.wait();
+        let ln_fsync = self.inner.sync.ln_fsync.wait();
+        bbn_fsync?;
+        ln_fsync?;
 
         // UNWRAP: fsync of bbn and ln above ensures that sync_data is Some.
         let sync_data = self.inner.sync_data.lock().take().unwrap();
